@@ -191,3 +191,21 @@ func (b *Budget) Factor(r *rng.Rng) float64 {
 	}
 	return 0
 }
+
+// NearOneFactor draws a factor 1 +- 2^-k (10 <= k <= 31) that keeps every product exact, or 0 if none fits:
+// a factor that differs from 1 by less than any "close enough" tolerance but must still scale everything.
+func (b *Budget) NearOneFactor(r *rng.Rng) float64 {
+	for try := 0; try < 6; try++ {
+		k := r.Range(10, 31)
+		if b.G+k > 48 || !b.fits(b.Total*2, b.G+k) {
+			continue
+		}
+		b.G += k
+		b.Total *= 2
+		if r.Bool() {
+			return 1 + ldexp(1, -k)
+		}
+		return 1 - ldexp(1, -k)
+	}
+	return 0
+}
